@@ -192,6 +192,13 @@ def run(rep, tier):
         s['k'] == 'StringLiteral' for s in sub(n['c'][-1]))]
     checks = [n for n in ini.walk() if n.get('callee', {}).get('q', '') in ('uscxml::LuaDataModel::assign',) or (n.get('callee') and any(
         t.file.endswith('LuaDataModel.cpp') and any(m['k'] == 'CXXThrowExpr' for m in t.walk()) and t.q != 'uscxml::LuaDataModel::init' for t in fb.targets(n)))]
+    # ... and any statement executed on the location parameter itself (eval(location + " = nil"), luaEval ...)
+    loc_par = [p_['lid'] for p_ in ini.d.get('params', []) if p_['name'] == 'location']
+    for n in ini.walk():
+        q_ = n.get('callee', {}).get('q', '')
+        if n['k'] in ('CallExpr', 'CXXMemberCallExpr') and (q_.endswith('::eval') or q_.endswith('luaEval') or q_.startswith('luaL_') or q_.startswith('luabridge::setGlobal')) and n not in touches:
+            if any(x['k'] == 'DeclRefExpr' and x.get('ref', {}).get('lid') in loc_par for a_ in n.get('c', [])[1:] for x in sub(a_)):
+                touches.append(n)
     early = [t for t in touches if not any(gi.dominates(c['id'], t['id']) for c in checks if c['id'] in gi.pos and t['id'] in gi.pos)]
     rep.check(not early, 'R16.3', 'init|check before touching the location', ini.where(), 'init() %s the location before the protected-name check%s' % (
         'does not touch' if not early else 'MODIFIES', '' if not early else ' (%s): <data id="_name"> wipes the system variable and then raises the error' % ', '.join(locstr(x) for x in early)))
@@ -225,6 +232,18 @@ def run(rep, tier):
             uses = any(n.get('callee', {}).get('q') == 'uscxml::getLuaAsData' for n in f.walk())
             if outs:
                 rep.check(uses, 'R16.4', q.split('::')[-1] + '|via getLuaAsData', f.where(), '%s builds its Data result with getLuaAsData: %s' % (q.split('::')[-1], uses))
+    # no second conversion path: a member whose result is Data does not read the Lua value with the raw C API (lua_isnumber and
+    # lua_isstring are coercing predicates: true for a string that looks like a number and vice versa)
+    nret = 0
+    for f in fb.funcs.values():
+        if f.rec != 'uscxml::LuaDataModel' or not (f.d.get('ret') or '').replace('uscxml::', '').strip() in ('Data', 'class Data'):
+            continue
+        nret += 1
+        raw = [n for n in f.walk() if n['k'] == 'CallExpr' and re.match(r'lua_(is(number|string|integer)|to(number|integer|lstring|boolean|numberx|integerx))$', n.get('callee', {}).get('q', ''))]
+        rep.check(not raw, 'R16.4', f.q.split('::')[-1] + '|no raw conversion', locstr(raw[0]) if raw else f.where(),
+                  '%s (result: Data) %s' % (f.q.split('::')[-1], 'reads Lua values only through getLuaAsData' if not raw else
+                                            'converts a Lua value with %s beside getLuaAsData: the kind of the value (string vs number) is decided by a coercing API' % raw[0]['callee']['q']))
+    rep.minimum('R16.4', nret, 2, 'members of LuaDataModel whose result is Data')
 
     # ---- R16.5
     arr_loop = None
